@@ -88,27 +88,28 @@ Definition row_direct (xs : list Q) (ys ws : option (list Q)) : list tgt :=
           end)
   end.
 
-Definition row_direct_at (c : cols) (ks : list Z) : list tgt :=
-  row_direct (vals (c_x c) ks) (ovals (c_y c) ks) (ovals (c_w c) ks).
+Definition row_direct_at (qc : qcols) (ks : list Z) : list tgt :=
+  row_direct (vals (q_x qc) ks) (ovals (q_y qc) ks) (ovals (q_w qc) ks).
 
 (* the inputs the statement is about: finite data, positive weights *)
 Definition all_finite (v : list float) : bool := forallb is_finite v.
-Definition positive (f : float) : bool := is_finite f && negb (Qle_bool (f2q f) 0).
+Definition qpos (q : Q) : bool := negb (Qle_bool q 0).
 Definition cols_ok (c : cols) : bool :=
   same_len c && all_finite (c_x c)
   && (match c_y c with Some y => all_finite y | None => true end)
-  && (match c_w c with Some w => forallb positive w | None => true end).
+  && (match c_w c with Some w => all_finite w && forallb qpos (qcol w) | None => true end).
 
 (* ------------------------------------------------------------------ the statistics statement *)
 (* rows: one list of reported floats per bin, keys in the order of Model.row_of *)
 Definition stats_ok (mem : Z -> list Z) (nbin : Z) (c : cols) (rows : list (list float)) : Prop :=
   Z.of_nat (length rows) = nbin
-  /\ forall i, 0 <= i < nbin -> Forall2 Meets (nth (Z.to_nat i) rows []) (row_direct_at c (mem i)).
+  /\ forall i, 0 <= i < nbin -> Forall2 Meets (nth (Z.to_nat i) rows []) (row_direct_at (qcols_of c) (mem i)).
 
 (* checker: the model's per-bin function on the members taken from the DATA *)
 Definition stats_check (mem : Z -> list Z) (nbin : Z) (c : cols) (rows : list (list float)) : bool :=
+  let qc := qcols_of c in
   (Z.of_nat (length rows) =? nbin)
-  && forallb (fun i => row_meets (nth (Z.to_nat i) rows []) (row_at true c (mem i))) (zseq 0 (Z.to_nat nbin)).
+  && forallb (fun i => row_meets (nth (Z.to_nat i) rows []) (row_at true qc (mem i))) (zseq 0 (Z.to_nat nbin)).
 
 (* ------------------------------------------------------------------ edges and centres *)
 Section Edges.
